@@ -313,6 +313,7 @@ LawDecoupled(inst, rr) ==
            With(Run(SubInst(inst, a)), LAMBDA Ra :
              \A k \in 1..Len(rr.means) :
                /\ VEq(Ra.means[k], Vec(inst.q + 1, LAMBDA j : rr.means[k][(j - 1) * inst.d + a]))
+               /\ VEq(Ra.sm_means[k], Vec(inst.q + 1, LAMBDA j : rr.sm_means[k][(j - 1) * inst.d + a]))
                /\ MEq(Ra.covs[k], Mat(inst.q + 1, inst.q + 1, LAMBDA j, l : rr.covs[k][(j - 1) * inst.d + a][(l - 1) * inst.d + a]))
                /\ MEq(Ra.sm_covs[k], Mat(inst.q + 1, inst.q + 1, LAMBDA j, l : rr.sm_covs[k][(j - 1) * inst.d + a][(l - 1) * inst.d + a])))
 
